@@ -126,14 +126,19 @@ def q__check_public_key_encoding(blob):
     raise ScriptError()
 
 
-# pycoin/satoshi/checksigops.py :: checksig
-def q__checksig(vm, sig_pair, signature_type, pair_blob, blobs_to_delete, sighash_cache, verify_witness_pubkeytype, verify_strict):
-    generator = vm.generator_for_signature_type(signature_type)
+# pycoin/satoshi/checksigops.py :: check_public_key_flags
+def q__check_public_key_flags(pair_blob, verify_witness_pubkeytype, verify_strict):
     if verify_strict:
         check_public_key_encoding(pair_blob)
     if verify_witness_pubkeytype:
-        if pair_blob[0] not in (2, 3) or len(pair_blob) != 33:
+        if pair_blob[:1] not in (b'\x02', b'\x03') or len(pair_blob) != 33:
             raise ScriptError()
+
+
+# pycoin/satoshi/checksigops.py :: checksig
+def q__checksig(vm, sig_pair, signature_type, pair_blob, blobs_to_delete, sighash_cache, verify_witness_pubkeytype, verify_strict):
+    generator = vm.generator_for_signature_type(signature_type)
+    check_public_key_flags(pair_blob, verify_witness_pubkeytype, verify_strict)
     try:
         public_pair = sec_to_public_pair(pair_blob, generator, strict=verify_strict)
     except (ValueError, EncodingError):
@@ -161,9 +166,12 @@ def q__checksigs(vm, sig_blobs, public_pair_blobs):
         try:
             sig_pair, signature_type = parse_and_check_signature_blob(sig_blob, flags, vm)
         except (der.UnexpectedDER, ValueError):
-            public_pair_blobs = []
+            sig_pair = None
         while len(sig_blobs_remaining) < len(public_pair_blobs):
             pair_blob = public_pair_blobs.pop()
+            if sig_pair is None:
+                check_public_key_flags(pair_blob, verify_witness_pubkeytype, verify_strict)
+                continue
             if checksig(vm, sig_pair, signature_type, pair_blob, sig_blobs, sighash_cache, verify_witness_pubkeytype, verify_strict):
                 break
         else:
